@@ -135,6 +135,23 @@ func c12Child(a *ChildArgs) {
 				c12Judge(a, bi%2 == 0, segs, false)
 			}
 		}
+		// a statement refused for its depth is one malformed statement like any other: what follows it is still parsed
+		deepBad := "SELECT " + strings.Repeat("(", 150) + "1" + strings.Repeat(")", 150)
+		for _, order := range [][]int{{0, 1, 0, 2, 0}, {1, 0, 0}, {0, 0, 1}, {1, 1, 0, 2}} {
+			var segs []segment
+			for _, k := range order {
+				switch k {
+				case 0:
+					t, _ := gosqlx.Parse(goods[len(segs)%len(goods)])
+					segs = append(segs, segment{sql: goods[len(segs)%len(goods)], tree: dump.Tree(&ast.AST{Statements: t.Statements}).String()})
+				case 1:
+					segs = append(segs, segment{sql: deepBad, bad: true, kind: "over-deep"})
+				default:
+					segs = append(segs, segment{sql: "SELECT a FROM t WHERE (a = ", bad: true, kind: "truncated"})
+				}
+			}
+			c12Judge(a, false, segs, false)
+		}
 		// the MySQL LIMIT form inside scripts, for the dialect differential
 		c12Dialect(a, "SELECT a FROM t LIMIT 1, 2 ; SELECT b FROM u ; SELECT c FROM v LIMIT 3, 4")
 		c12Dialect(a, "SELECT a FROM t LIMIT 1, 2 ; SELECT FROM ; SELECT c FROM v LIMIT 3, 4 ;")
@@ -243,6 +260,10 @@ func c12Judge(a *ChildArgs, trailingSemi bool, segs []segment, sample bool) {
 	if trailingSemi {
 		script += " ;"
 	}
+	// blank lines, indentation or a comment in front of the first statement belong to the text: positions count from
+	// the first byte of the input, not from the first statement
+	prefix := []string{"", "", "\n\n", "   \n\t  ", "\r\n\r\n", "-- lead\n", "\n/* c */ "}[hash64([]byte(script))%7]
+	script = prefix + script
 	if nbad > 0 && ngood > 0 {
 		a.Rec.Distinct("mixed_scripts", script)
 	}
@@ -315,7 +336,7 @@ func c12Judge(a *ChildArgs, trailingSemi bool, segs []segment, sample bool) {
 	}
 	// ... and its position (line, column) lies inside that statement's text, its terminator included
 	if len(errs) == nbad && nbad > 0 {
-		off := 0
+		off := len(prefix)
 		var spans [][2]int
 		for _, s := range segs {
 			spans = append(spans, [2]int{off, off + len(s.sql)})
